@@ -630,22 +630,28 @@ func run(spec Spec) Case {
 		time.Sleep(700 * ms)
 
 	case "giveup":
-		if spec.Var == "resess" {
-			// the full 20 transmissions of a RE-handshake (earlier session, key 181 s old)
-			if !s.establish("init") {
+		if spec.Var == "resess" || spec.Var == "resess-nh" {
+			// the full give-up of a RE-handshake (earlier session, key made 181 s old).
+			// resess: the device was responder and sent no data, so no other timer is pending.
+			// resess-nh: the device was initiator and sent data on completion: the new-handshake
+			// timer armed by that send expires during the retry sequence and resets the attempt
+			// counter (SendHandshakeInitiation(false) stores 0 before the rate-limit test).
+			role := "resp"
+			if spec.Var == "resess-nh" {
+				role = "init"
+			}
+			if !s.establish(role) {
 				break
 			}
 			time.Sleep(50 * ms)
 			s.shiftKeys(181)
-			if i0 := s.waitInit(1, s.since()); i0 != nil {
-				time.Sleep(time.Until(i0.T.Add(5200 * ms)))
-			}
-			n0 := s.countInit()
+			s.sleepUntil(5400 * ms) // the 5 s rate limit of the handshake message sent at the start is over
 			t0 := time.Now()
 			s.tun(per)
-			time.Sleep(time.Until(t0.Add(20*5334*ms + 900*ms)))
+			time.Sleep(time.Until(t0.Add(22*5334*ms + 900*ms))) // gave up for sure (up to 22 transmissions)
+			n1 := s.countInit()
 			s.tun(1)
-			if init := s.waitInit(n0+21, s.since()+2*sec); init != nil {
+			if init := s.waitInit(n1+1, s.since()+2*sec); init != nil {
 				time.Sleep(20 * ms)
 				s.answer(init)
 			} else {
@@ -1119,6 +1125,7 @@ func thoroughSpecs(r *rand.Rand) []Spec {
 		Spec{Kind: "giveup", N: 3, Per: 1, Delay: d()},
 		Spec{Kind: "giveup", N: 6, Per: 2, Var: "tun", Delay: d()},
 		Spec{Kind: "giveup", Per: 2, Var: "resess", Delay: d()},
+		Spec{Kind: "giveup", Per: 1, Var: "resess-nh", Delay: d()},
 		Spec{Kind: "giveup", N: 2, Per: 1, Var: "tun2", Delay: d()},
 		Spec{Kind: "regive", N: 3, Per: 2, Var: "again2", Delay: d()},
 		Spec{Kind: "regive", N: 2, Per: 1, Var: "again2", Delay: d()},
